@@ -113,7 +113,7 @@ class LoopMixin:
 
     def seq_access(self, it):
         """(length term, element-getter(index term) -> TV) for a symbolic iterable"""
-        if it.k == "val" and it.hint == "list":
+        if it.k == "val" and self.is_listlike(it):
             a = self.as_addr(it)
             eh = self.elem_hint(it)
 
@@ -449,6 +449,10 @@ class LoopMixin:
             prot = []
             for m in unit.protects:
                 prot.extend(self.eval_locs(m, env=env))
+            if self.unit is not None and self.unit is not unit:
+                # locations the calling unit assumes no callee touches (listed as an assumption)
+                for m in self.unit.ext_protect:
+                    prot.extend(self.eval_locs(m))
             self.havoc_heap(prot, None, {"preserves": tuple(unit.preserves)}, tag="C")
         elif unit.modifies is not None:
             mods = []
